@@ -387,9 +387,21 @@ ALPHABET = ["create", "createcpp", "destroy 0", "destroyf 1", "g4 c SetOutputFil
 
 
 def run(ctx):
-    info = gen_api.generate(ctx)
+    translator_ok = True
+    try:
+        info = gen_api.generate(ctx)
+    except Exception as e:          # last resort: the translator is written not to raise on unfamiliar code
+        info = {"error": f"{type(e).__name__}: {e}"[:500]}
+        translator_ok = False
+        ctx.proof_broken.append({"stage": "translator", "error": info["error"]})
+        ctx.log("PROOF BROKEN: translator failed:", info["error"][:200])
     ctx.cov["translator"] = info
-    ok = ctx.prove(["PhreeqcVerif.Properties.C13", "PhreeqcVerif.Properties.C13Store"])
+    if info.get("facts_not_extracted"):
+        # not a failure: these functions are judged by the behavioural tie only (every function is called through the three
+        # bindings on live and dead ids); recorded so that the reader sees what the static obligations did not cover
+        ctx.log("facts the translator could not bring into a normal form (left to the binding differential):", info["facts_not_extracted"][:6])
+        ctx.notes.append("static facts not extracted, covered by the behavioural tie only: " + "; ".join(info["facts_not_extracted"][:20]))
+    ok = ctx.prove(["PhreeqcVerif.Properties.C13", "PhreeqcVerif.Properties.C13Store"]) and translator_ok
     ctx.build_lib()
     exe = ctx.build_harness("ph_api")
     runner = Runner(ctx, exe)
